@@ -393,6 +393,8 @@ var vfE7StdHeaders = map[string]bool{"Accept-Encoding": true, "User-Agent": true
 	"Content-Type": true, "Host": true, "Connection": true}
 
 // run executes one case on the real server and writes the op / impl lines.
+var vfE7PrePutN, vfE7PrePutDone int
+
 func (e *vfE7Env) run(c vfE7Case) (status int, reqs []string) {
 	e.cl.apply(c.world)
 	opts := e.base
@@ -416,6 +418,30 @@ func (e *vfE7Env) run(c vfE7Case) (status int, reqs []string) {
 	}
 	optsPtr := &opts
 	e.n.swapOpts(optsPtr)
+	// every third state-changing case with a configured admin list is preceded by a successful
+	// PUT /config/log_level from an allowed address (seed C17-m10: the option set swapped in by doConfig must keep
+	// the admin list). The op line is unchanged: a log-level update must not change any admin decision.
+	if c.method != "GET" && len(c.segs) > 0 && c.segs[0] != "config" && len(c.users) > 0 {
+		vfE7PrePutN++
+		if vfE7PrePutN%3 == 0 {
+			o := *e.n.getOpts()
+			o.AllowConfigFromCIDR = "127.0.0.1/8"
+			e.n.swapOpts(&o)
+			preq := httptest.NewRequest("PUT", "/config/log_level", strings.NewReader("debug"))
+			preq.RemoteAddr = "127.0.0.1:7"
+			prec := httptest.NewRecorder()
+			e.hs.ServeHTTP(prec, preq)
+			if prec.Code != 200 {
+				fmt.Printf("E7-PREPUT-BAD PUT /config/log_level from 127.0.0.1:7 inside 127.0.0.1/8 answered %d\n", prec.Code)
+			}
+			o2 := *e.n.getOpts() // whatever doConfig swapped in, with the case's own CIDR back
+			o2.AllowConfigFromCIDR = c.cidr
+			o2.LogLevel = opts.LogLevel
+			optsPtr = &o2
+			e.n.swapOpts(optsPtr)
+			vfE7PrePutDone++
+		}
+	}
 	e.cl.log.take()
 
 	// real path: symbols → addresses, segments escaped
